@@ -628,6 +628,10 @@ def _member_audit(gen):
             reasons[n] = 'needs network / remote data files'
         elif any(b in n for b in bases):
             reasons[n] = 'defined on an abstract base / mixin / descriptor and overridden (or only evaluated nested) in every concrete class the workload uses'
+        elif n.endswith(('.isscalar', '.n_apertures', '.nlabels')):
+            reasons[n] = 'lazyproperty evaluated (and cached) inside the constructor: never an outermost call'
+        elif 'Interpolator.__call__' in n:
+            reasons[n] = 'called only by Background2D with its private mesh state (nested); covered through Background2D(interpolator=...)'
         elif n.rsplit('.', 1)[-1] in ('__init__',) and ('Mixin' in n or 'Base' in n):
             reasons[n] = 'abstract base constructor'
         else:
